@@ -12,6 +12,7 @@ import NmVerif.NN.ChanLemmas
 import NmVerif.NN.GroupNormLemmas
 import NmVerif.NN.CosineLemmas
 import NmVerif.NN.BilinearLemmas
+import NmVerif.NN.BilinearRankLemmas
 /-
   C17 — neural-network routines equal their reference (PyTorch) definitions.
 
@@ -756,7 +757,8 @@ example :
     with `y`, `sum` over the last axis, `transpose`, bias) exists, has the shape `(B, O)`, and
     `out[b, o] = Σ_j (Σ_i x[b,i]·w[o,i,j]) · y[b,j] (+ c[o])` — `bilinearAt`: every inner sum is a left fold over
     `i = 0 .. I−1` from its first product, the outer one over `j = 0 .. J−1`; the bias is added to the finished sum.
-    (Other ranks: compared with the real code and the oracle on every run; rank ≥ 4: instance `bilinear_rank4_regression`.) -/
+    (Rank 1 and rank 3: `bilinear_rank1_eq_def`, `bilinear_rank3_eq_def`; rank ≥ 4: compared with the real code and the
+    oracle on every run, instance `bilinear_rank4_regression`.) -/
 theorem bilinear_rank2_eq_def {α : Type} (add mul : α → α → α) (x y w : Arr α) (bias : Option (Arr α)) (B I J O : Nat)
     (hx : x.shape = [B, I]) (hy : y.shape = [B, J]) (hw : w.shape = [O, I, J]) (hb : ∀ c, bias = some c → c.shape = [O])
     (hB : 0 < B) (hI : 0 < I) (hJ : 0 < J) (hO : 0 < O) :
@@ -770,6 +772,51 @@ theorem bilinear_rank2_eq_def {α : Type} (add mul : α → α → α) (x y w : 
 example :
     bilinearAt (· + ·) (· * ·) (fun d => match d with | [_, i] => ((i + 1 : Nat) : Int) | _ => 0)
       (fun d => match d with | [_, j] => ((j + 3 : Nat) : Int) | _ => 0) (fun _ => 1) 2 3 0 0 = some 36 := by decide
+
+/-- **bilinear on rank-1 inputs** `x : (I)`, `y : (J)` (no batch axis), weight `(O, I, J)`, optional bias `(O)`: the composition
+    (`matmulv2` of the vector with the weight stack, broadcast `multiply` with `y`, `sum` over the last axis, the
+    identity `transpose` of a rank-1 result, bias) exists, has the shape `(O)`, and
+    `out[o] = Σ_j (Σ_i x[i]·w[o,i,j]) · y[j] (+ c[o])` (`bilinearAtL` with no leading index). -/
+theorem bilinear_rank1_eq_def {α : Type} (add mul : α → α → α) (x y w : Arr α) (bias : Option (Arr α)) (I J O : Nat)
+    (hx : x.shape = [I]) (hy : y.shape = [J]) (hw : w.shape = [O, I, J]) (hb : ∀ c, bias = some c → c.shape = [O])
+    (hI : 0 < I) (hJ : 0 < J) (hO : 0 < O) :
+    ∃ v, bilinear add mul x y w bias = some v ∧ v.shape = [O] ∧ ∀ o, o < O →
+      v.get [o] = match bias with
+        | none => bilinearAtL add mul x.get y.get w.get I J [] o
+        | some c => (bilinearAtL add mul x.get y.get w.get I J [] o).map (fun S => add S (c.get [o])) :=
+  bilinear_rank1 add mul x y w bias I J O hx hy hw hb hI hJ hO
+
+/-- non-vacuity: `x = (1, 2)`, `y = (3, 4, 5)`, `w[o,i,j] = o + 1`, bias `(100, 200)`:
+    `out[1] = (1·2 + 2·2)·3 + 6·4 + 6·5 + 200 = 272` -/
+example :
+    let x : Arr Int := ⟨[2], fun d => match d with | [i] => (i + 1 : Nat) | _ => 0⟩
+    let y : Arr Int := ⟨[3], fun d => match d with | [j] => (j + 3 : Nat) | _ => 0⟩
+    let w : Arr Int := ⟨[2, 2, 3], fun d => match d with | [o, _, _] => (o + 1 : Nat) | _ => 0⟩
+    let c : Arr Int := ⟨[2], fun d => match d with | [o] => (100 * (o + 1) : Nat) | _ => 0⟩
+    (bilinear (· + ·) (· * ·) x y w (some c)).map (fun v => (v.shape, v.get [1])) = some ([2], some 272)
+      ∧ bilinearAtL (· + ·) (· * ·) x.get y.get w.get 2 3 [] 1 = some 72 := by decide
+
+/-- **bilinear on rank-3 inputs** `x : (B0, B1, I)`, `y : (B0, B1, J)`, weight `(O, I, J)`, optional bias `(O)`, any positive
+    extents: both inputs are reshaped to `(B0, 1, B1, ·)` (`bilinear_input_reshape`: the unit axis broadcasts against the
+    out-features axis), `matmulv2` gives `(B0, O, B1, J)`, the product with `y` is summed over the last axis and the last
+    two axes are swapped: the result has the shape `(B0, B1, O)` and
+    `out[b0, b1, o] = Σ_j (Σ_i x[b0,b1,i]·w[o,i,j]) · y[b0,b1,j] (+ c[o])`. -/
+theorem bilinear_rank3_eq_def {α : Type} (add mul : α → α → α) (x y w : Arr α) (bias : Option (Arr α)) (B0 B1 I J O : Nat)
+    (hx : x.shape = [B0, B1, I]) (hy : y.shape = [B0, B1, J]) (hw : w.shape = [O, I, J]) (hb : ∀ c, bias = some c → c.shape = [O])
+    (hB0 : 0 < B0) (hB1 : 0 < B1) (hI : 0 < I) (hJ : 0 < J) (hO : 0 < O) :
+    ∃ v, bilinear add mul x y w bias = some v ∧ v.shape = [B0, B1, O] ∧ ∀ b0 b1 o, b0 < B0 → b1 < B1 → o < O →
+      v.get [b0, b1, o] = match bias with
+        | none => bilinearAtL add mul x.get y.get w.get I J [b0, b1] o
+        | some c => (bilinearAtL add mul x.get y.get w.get I J [b0, b1] o).map (fun S => add S (c.get [o])) :=
+  bilinear_rank3 add mul x y w bias B0 B1 I J O hx hy hw hb hB0 hB1 hI hJ hO
+
+/-- non-vacuity: the rank-3 instance above (`a = b`, `(2,1,2)`, row-major `k+1`; `w` `(2,2,2)` row-major `k+1`; bias):
+    `bilinearAtL` at `[1, 0]`, `o = 1` is `3·5·3 + 3·6·4 + 4·7·3 + 4·8·4` grouped as `(3·5 + 4·7)·3 + (3·6 + 4·8)·4` -/
+example :
+    let a : Arr Int := ⟨[2, 1, 2], fun d => (computeOffset d (strides [2, 1, 2]) + 1 : Nat)⟩
+    let w : Arr Int := ⟨[2, 2, 2], fun d => (computeOffset d (strides [2, 2, 2]) + 1 : Nat)⟩
+    bilinearAtL (· + ·) (· * ·) a.get a.get w.get 2 2 [1, 0] 1 = some ((3 * 5 + 4 * 7) * 3 + (3 * 6 + 4 * 8) * 4)
+      ∧ (3 * 5 * 3 + 3 * 6 * 4 + 4 * 7 * 3 + 4 * 8 * 4 : Int) = (3 * 5 + 4 * 7) * 3 + (3 * 6 + 4 * 8) * 4 := by decide
 
 /-! ## convolution -/
 
@@ -785,12 +832,12 @@ theorem dilV_form (d : Option Nat) : dilV (form d) = dilationOf d := by cases d 
 theorem posForm_form {s : Option Nat} (h : ∀ v, s = some v → 0 < v) : PosForm (form s) := by
   cases s with
   | none => exact Or.inl rfl
-  | some v => exact Or.inr ⟨v, h v rfl, rfl⟩
+  | some v => exact Or.inr (Or.inl ⟨v, h v rfl, rfl⟩)
 
 theorem intForm_form (p : Option Nat) : IntForm (form p) := by
   cases p with
   | none => exact Or.inl rfl
-  | some v => exact Or.inr ⟨v, rfl⟩
+  | some v => exact Or.inr (Or.inl ⟨v, rfl⟩)
 
 /-- **conv1d, any batch / stride / zero padding / dilation / groups / optional bias, each option passed as `None` or as an
     integer.**  For an input `(N, g·Cg, L)`, a weight `(Og·g, Cg, K)` (so `groups = g` is any common divisor of the
@@ -843,6 +890,44 @@ theorem conv1d_eq_nested_loop (x w : Arr Int) (bias : Option (Arr Int)) (N Og g 
   refine ⟨r, h1, h2, fun n o l hn ho hl => ?_⟩
   rw [h3 n o l hn ho hl]
   exact conv1dLoop_congr_grp (grpCode_eq_grpSpec hdom ho) x w bias L Cg K _ _ _ n l
+
+/-- **conv1d, every argument form the C++ accepts**: stride, padding and dilation each given as `None`, as an integer, or
+    as a one-element index array `[v]` (`conv_slices`, `conv_pad`, `conv_expand_spacing` read `at(arg, 0)`), independently
+    of each other — 27 combinations, of which `conv1d_eq_code_loop` covers the 8 without arrays.  Values: `strideVal`,
+    `padVal`, `dilV` (`None` ↦ 1 / 0 / 1).  Same conclusion: defined, the standard extent, every element the nested loop
+    with the code's group assignment. -/
+theorem conv1d_forms_eq_code_loop (x w : Arr Int) (bias : Option (Arr Int)) (N Og g Cg L K : Nat) (stride padding dilation : PArg)
+    (hx : x.shape = [N, g * Cg, L]) (hw : w.shape = [Og * g, Cg, K]) (hb : ∀ b, bias = some b → b.shape = [Og * g])
+    (hOg : 0 < Og) (hg : 0 < g) (hK : 0 < K) (hs : PosForm stride) (hp : IntForm padding) (hd : PosForm dilation)
+    (hfit : Fits L K (padVal padding) (dilV dilation)) :
+    ∃ r, convnd 1 x w bias stride padding dilation g = .ok r ∧
+      r.shape = [N, Og * g, outSize L K (strideVal stride) (padVal padding) (dilV dilation)] ∧
+      ∀ n o l, n < N → o < Og * g → l < outSize L K (strideVal stride) (padVal padding) (dilV dilation) →
+        r.get [n, o, l] = conv1dLoop (grpCode g) x w bias L Cg K (strideVal stride) (padVal padding) (dilV dilation) n o l := by
+  have hfit' : (K - 1) * dilV dilation + 1 ≤ L + 2 * padVal padding := by rw [Nat.mul_comm]; exact hfit
+  exact convnd1_eq_codeLoop (bias := bias) hx hw hb hOg hg hK hs hp hd hfit'
+
+/-- … and equal to the PyTorch nested loop on the domain of `conv1d_eq_nested_loop` -/
+theorem conv1d_forms_eq_nested_loop (x w : Arr Int) (bias : Option (Arr Int)) (N Og g Cg L K : Nat) (stride padding dilation : PArg)
+    (hx : x.shape = [N, g * Cg, L]) (hw : w.shape = [Og * g, Cg, K]) (hb : ∀ b, bias = some b → b.shape = [Og * g])
+    (hOg : 0 < Og) (hg : 0 < g) (hK : 0 < K) (hs : PosForm stride) (hp : IntForm padding) (hd : PosForm dilation)
+    (hfit : Fits L K (padVal padding) (dilV dilation)) (hdom : g = 1 ∨ Og = 1) :
+    ∃ r, convnd 1 x w bias stride padding dilation g = .ok r ∧
+      r.shape = [N, Og * g, outSize L K (strideVal stride) (padVal padding) (dilV dilation)] ∧
+      ∀ n o l, n < N → o < Og * g → l < outSize L K (strideVal stride) (padVal padding) (dilV dilation) →
+        r.get [n, o, l] = conv1dLoop (grpSpec (Og * g) g) x w bias L Cg K (strideVal stride) (padVal padding) (dilV dilation) n o l := by
+  obtain ⟨r, h1, h2, h3⟩ := conv1d_forms_eq_code_loop x w bias N Og g Cg L K stride padding dilation hx hw hb hOg hg hK hs hp hd hfit
+  refine ⟨r, h1, h2, fun n o l hn ho hl => ?_⟩
+  rw [h3 n o l hn ho hl]
+  exact conv1dLoop_congr_grp (grpCode_eq_grpSpec hdom ho) x w bias L Cg K _ _ _ n l
+
+/-- non-vacuity: stride `[2]` (array), padding `1` (integer), dilation `[2]` (array) on `(1, 2, 5)` with a `(3, 2, 2)` weight:
+    defined, extent ⌊(5 + 2 − 2 − 1)/2⌋ + 1 = 3 -/
+example : ∃ r, convnd 1 ⟨[1, 2, 5], fun _ => 1⟩ ⟨[3, 2, 2], fun _ => 1⟩ none (.arr [2]) (.int 1) (.arr [2]) 1 = .ok r ∧ r.shape = [1, 3, 3] := by
+  obtain ⟨r, h1, h2, _⟩ := conv1d_forms_eq_nested_loop ⟨[1, 2, 5], fun _ => 1⟩ ⟨[3, 2, 2], fun _ => 1⟩ none 1 3 1 2 5 2 (.arr [2]) (.int 1) (.arr [2])
+    rfl rfl (by intro b h; cases h) (by decide) (by decide) (by decide) (Or.inr (Or.inr ⟨2, by decide, rfl⟩)) (Or.inr (Or.inl ⟨1, rfl⟩))
+    (Or.inr (Or.inr ⟨2, by decide, rfl⟩)) (by decide) (Or.inl rfl)
+  exact ⟨r, h1, h2⟩
 
 /-- witnesses used by the examples: `x[n,c,j] = 100·n + 10·c + j + 1`, `w[o,c,k] = 100·o + 10·c + k + 1` -/
 def xW (shape : Shape) : Arr Int := ⟨shape, fun i => match i with | [n, c, j] => (100 * n + 10 * c + j + 1 : Nat) | _ => 0⟩
